@@ -1,6 +1,9 @@
 package main
 
-import "fmt"
+import (
+	"fmt"
+	"strings"
+)
 
 type accessRec struct {
 	wG  int
@@ -24,11 +27,14 @@ func (ex *Exec) access(c *Cell, write bool) {
 	if c.Owner != 0 && ex.openOwner[c.Owner] {
 		ex.end(OutMonitor, fmt.Sprintf("ownership: %s of location %s owned by watcher %d during an operation on another watcher", rw(write), c.Name, c.Owner))
 	}
-	if write && c.Global && ex.monitors["no-global-writes"] {
+	if write && c.Global && ex.monitors["no-global-writes"] && !strings.HasPrefix(c.Name, "verif") {
 		ex.end(OutMonitor, "no-global-writes: store to package-level variable "+c.Name)
 	}
 	if !ex.cfg.Races || len(ex.gs) < 2 {
 		return
+	}
+	if strings.HasPrefix(c.Name, "verif") {
+		return // state of the harness's kernel-model stubs, not of the code under test
 	}
 	if ex.acc == nil {
 		ex.acc = map[*Cell]*accessRec{}
@@ -89,6 +95,9 @@ func rw(w bool) string {
 func (ex *Exec) mapAccess(m *MapObj, write bool) {
 	if m == nil || ex.cur == nil || ex.cur.id < 0 {
 		return
+	}
+	if m.Owner != 0 && ex.openOwner[m.Owner] {
+		ex.end(OutMonitor, fmt.Sprintf("ownership: %s of a map owned by watcher %d during an operation on another watcher", rw(write), m.Owner))
 	}
 	if mu, ok := ex.guardMaps[m]; ok && ex.monitors["lock-discipline"] {
 		if !ex.heldBy(ex.cur, mu) {
